@@ -20,9 +20,9 @@ import typing as t
 
 from .. import astq
 from ..cfg import cfg_of
-from ..effects import INF, Effects, Flow, Site, St, const_int, satoms
+from ..effects import INF, PS, Effects, Flow, PathSim, Site, St, _subst_key, codec_call, const_int
 from ..fold import Folder, RegexConst, class_of_items, sre_c
-from ..guards import canon, simulate
+from ..guards import canon
 from ..loader import AnalysisError, ClassInfo, FuncInfo, dotted, norm, walk_no_nested
 
 
@@ -35,6 +35,7 @@ class A:
         self.eff = eff
         self.folder = folder
         self.flow = flow
+        self.sim = PathSim(flow)  # path-wise facts (nullness, difference bounds, lengths): shared so that helper summaries are computed once
 
 
 Verdict = t.Optional[t.Tuple[bool, str]]
@@ -123,10 +124,10 @@ def _mapping_param(a: A, fi: FuncInfo, m: ast.AST, node) -> bool:
 def role_latin1_input(a: A, s: Site, e: str) -> Verdict:
     if s.kind != "encode" or e != "UnicodeEncodeError" or not isinstance(s.node, ast.Call):
         return None
-    enc = astq.arg_or_kw(s.node, 0, "encoding")
-    if astq.const_str(enc or ast.Constant("utf-8")) not in ("latin1", "latin-1", "iso-8859-1", "iso8859-1"):
+    cc = codec_call(s.node)
+    if cc is None or cc[0] != "encode" or cc[2] not in ("latin1", "latin-1", "iso-8859-1", "iso8859-1"):
         return None
-    recv = s.node.func.value  # type: ignore[attr-defined]
+    recv = cc[1]
     node = a.flow.node(s.func, s.node)
     if _input_text(a, s.func, recv, node):
         return True, "receiver is environ / header text (a CGI variable of the environ mapping or an argument of an entry point), latin-1 by the WSGI contract (input model)"
@@ -247,16 +248,57 @@ def _iter_of_self(it: ast.AST, sn: str) -> bool:
     return False
 
 
+def _app_params(a: A, fi: FuncInfo, depth: int = 0) -> tuple[set[str], str] | None:
+    """the parameters of fi that only ever carry values of the application (the offers / keys it passes to an Accept
+    method), never an element of the client's list; None when fi is not on such a path."""
+    if depth > 3 or not fi.params:
+        return None
+    if _is_subclass(a, fi.cls, "werkzeug.datastructures.accept.Accept"):
+        params = fi.params[1:]
+        pos, ncalls = _client_positions(a, fi)
+        if ncalls and pos:
+            client = {params[i] for i in pos if i < len(params)}
+            return set(params) - client, f"of {ncalls} call(s) self.{fi.name}(...) the argument(s) {sorted(client)} carry the client's items"
+        if not ncalls and fi.fq in a.flow.entry_fqs:
+            return set(params), f"{fi.qualname} is called by the application with its own values"
+        return None
+    cal = a.flow.callers(fi)
+    if not cal:
+        return None
+    static = any(d.rsplit(".", 1)[-1] == "staticmethod" for d in fi.decorators)
+    params = fi.params[1:] if (fi.cls is not None and not static) else list(fi.params)
+    app = set(params)
+    whys = []
+    for f, n, kind in cal:
+        if kind != "call":
+            return None
+        up = _app_params(a, f, depth + 1)
+        if up is None:
+            return None
+        whys.append(up[1])
+        nn = cfg_of(f).node_of(n)
+        for p in list(app):
+            b = a.flow.bind(fi, n, p)
+            if b is None:
+                app.discard(p)
+                continue
+            if b[0] == "default":
+                continue
+            deps = a.flow.param_deps(f, b[1], nn)
+            if not deps <= up[0]:
+                app.discard(p)
+    return app, f"{fi.qualname} is called from {len(cal)} place(s) [{'; '.join(sorted(set(whys)))}]"
+
+
 def role_application_value(a: A, s: Site, e: str) -> Verdict:
-    """explicit raise in a matching method of an Accept class, under a test of the application's own value only."""
-    if s.kind != "raise" or e != "ValueError" or not _is_subclass(a, s.func.cls, "werkzeug.datastructures.accept.Accept"):
+    """explicit raise on the path of an Accept matching method (in it, or in a helper it calls), under a test of the
+    application's own value only."""
+    if s.kind != "raise" or e != "ValueError":
         return None
-    pos, ncalls = _client_positions(a, s.func)
-    if not ncalls or not pos:
+    got = _app_params(a, s.func)
+    if got is None:
         return None
-    params = s.func.params[1:]
-    client = {params[i] for i in pos if i < len(params)}
-    app = set(params) - client
+    app, why = got
     node = a.flow.node(s.func, s.node)
     if node is None or not app:
         return None
@@ -266,11 +308,12 @@ def role_application_value(a: A, s: Site, e: str) -> Verdict:
         for x in (at.a, at.b):
             if x is not None:
                 deps |= a.flow.param_deps(s.func, x, at.test)
-        deps.discard(s.func.params[0])
+        if s.func.cls is not None:
+            deps.discard(s.func.params[0])
         if deps and deps <= app:
             own.append(norm(at.test.ast))
     ok = bool(own)
-    why = f"of {ncalls} call(s) self.{s.func.name}(...) the argument(s) {sorted(client)} carry the client's items; "
+    why = why + "; "
     if ok:
         return True, why + f"this raise is dominated by a test of the application's own value only ({own[0]}): a client item cannot trigger it"
     return False, why + "this raise is not dominated by any test that depends on the application's value only"
@@ -354,23 +397,22 @@ def role_fallback_search(a: A, s: Site, e: str) -> Verdict:
     # R is not None here
     nn = a.flow.holds(fi, node, lambda at: (at.op == "is" and not at.truth and norm(at.a) == r.id and astq.is_none(at.b)) or (at.op == "truthy" and at.truth and norm(at.a) == r.id))
     facts.append(f"`{r.id}` is known to be a negotiated value (not None): {nn is not None}")
-    # R = <...>.best_match(L) with L = [key(y) for y in M]
+    # R = <...>.best_match(L) where every element of L is key(y) for some y of M
     defs = list(rd.reaching(node, r.id))
     ok_src = False
     if len(defs) == 1 and defs[0].kind in ("assign", "walrus") and isinstance(defs[0].value, ast.Call) and isinstance(defs[0].value.func, ast.Attribute) and defs[0].value.func.attr == "best_match" and len(defs[0].value.args) == 1 and not defs[0].value.keywords:
         larg = defs[0].value.args[0]
-        lst = larg
-        if isinstance(larg, ast.Name):
-            ld = list(rd.reaching(defs[0].node, larg.id))
-            lst = ld[0].value if len(ld) == 1 and ld[0].kind in ("assign", "walrus") and ld[0].index is None else None
-        if isinstance(lst, (ast.ListComp, ast.GeneratorExp)) and len(lst.generators) == 1 and not lst.generators[0].ifs and isinstance(lst.generators[0].target, ast.Name):
-            same_key = _rename(lst.elt, lst.generators[0].target.id) == key_txt
-            same_iter = norm(lst.generators[0].iter) == norm(gen.iter)
-            stable = isinstance(gen.iter, ast.Name) and {id(d) for d in rd.reaching(node, gen.iter.id)} == {id(d) for d in rd.reaching(a.flow.node(fi, lst), gen.iter.id)}
-            ok_src = same_key and same_iter and stable
-            facts.append(f"negotiated over [{key_txt} for _ in {norm(lst.generators[0].iter)}]: same key {same_key}, same offers {same_iter and stable}")
+        els = _keyed_elements(a, fi, larg, defs[0].node)
+        if els is None:
+            raise AnalysisError(f"C07 fallback search: {fi.qualname}: the list `{norm(larg)[:60]}` negotiated over is built in a shape that is not understood")
+        elif not els:
+            facts.append("the list negotiated over is always empty")
         else:
-            facts.append("the list negotiated over is not a comprehension of the searched offers")
+            same_key = all(k == key_txt for k, _, _ in els)
+            same_iter = all(it == norm(gen.iter) for _, it, _ in els)
+            stable = isinstance(gen.iter, ast.Name) and all({id(d) for d in rd.reaching(node, gen.iter.id)} == {id(d) for d in rd.reaching(n2, gen.iter.id)} for _, _, n2 in els)
+            ok_src = same_key and same_iter and stable
+            facts.append(f"negotiated over {{{els[0][0]} for _ in {els[0][1]}}} ({len(els)} producer(s)): same key {same_key}, same offers {same_iter and stable}")
     else:
         facts.append(f"`{r.id}` is not the single result of a best_match call")
     # best_match returns one of its offers (or the default, None here)
@@ -379,6 +421,86 @@ def role_fallback_search(a: A, s: Site, e: str) -> Verdict:
     facts.append(f"Accept.best_match returns one of its offers or the default: {ok_bm}")
     ok = nn is not None and ok_src and ok_bm
     return ok, "the searched value is the key of one of the offers by construction [" + "; ".join(facts) + "]"
+
+
+def _key_of_callable(f: ast.AST) -> str | None:
+    """the text of f(_) for a callable expression f (a name or a lambda of one parameter)."""
+    if isinstance(f, ast.Lambda):
+        ar = f.args
+        if len(ar.args) == 1 and not (ar.posonlyargs or ar.kwonlyargs or ar.vararg or ar.kwarg or ar.defaults):
+            return _rename(f.body, ar.args[0].arg)
+        return None
+    if dotted(f):
+        return f"{dotted(f)}(_)"
+    return None
+
+
+def _keyed_elements(a: A, fi: FuncInfo, e: ast.AST, node, depth: int = 0) -> list[tuple[str, str, t.Any]] | None:
+    """what a list / iterable holds, as [(key text with `_` for the element, text of the iterable, CFG node)]: every
+    element is key(y) for some y of the iterable (a filter only removes elements).  Comprehensions and generators,
+    list() / tuple() / sorted() / set() around them, map(f, M), and a local filled by `for y in M: L.append(key(y))`."""
+    if depth > 6:
+        return None
+    if isinstance(e, (ast.ListComp, ast.GeneratorExp, ast.SetComp)):
+        if len(e.generators) != 1 or not isinstance(e.generators[0].target, ast.Name):
+            return None
+        g = e.generators[0]
+        return [(_rename(e.elt, g.target.id), norm(g.iter), node)]
+    if isinstance(e, ast.Call):
+        d = dotted(e.func)
+        if d in ("list", "tuple", "sorted", "set", "frozenset", "iter", "reversed") and len(e.args) == 1:
+            return _keyed_elements(a, fi, e.args[0], node, depth + 1)
+        if d in ("list", "tuple", "set") and not e.args and not e.keywords:
+            return []
+        if d == "map" and len(e.args) == 2 and not e.keywords:
+            k = _key_of_callable(e.args[0])
+            return None if k is None else [(k, norm(e.args[1]), node)]
+        return None
+    if isinstance(e, (ast.List, ast.Tuple)):
+        return [] if not e.elts else None
+    if isinstance(e, ast.Name):
+        if node is None:
+            return None
+        defs = list(a.flow.rd(fi).reaching(node, e.id))
+        if not defs:
+            return None
+        out: list[tuple[str, str, t.Any]] = []
+        for d_ in defs:
+            if not (d_.kind in ("assign", "walrus") and d_.index is None and d_.value is not None):
+                return None
+            got = _keyed_elements(a, fi, d_.value, d_.node, depth + 1)
+            if got is None:
+                return None
+            out += got
+        # additions to the local anywhere in the function
+        cfg = cfg_of(fi)
+        for n in walk_no_nested(fi.node):
+            if isinstance(n, ast.Call) and isinstance(n.func, ast.Attribute) and isinstance(n.func.value, ast.Name) and n.func.value.id == e.id:
+                m = n.func.attr
+                if m in ("append", "add") and len(n.args) == 1 and not n.keywords:
+                    loop = astq.enclosing(n, (ast.For,))
+                    if not (isinstance(loop, ast.For) and isinstance(loop.target, ast.Name)):
+                        return None
+                    head = cfg.by_ast.get(id(loop), [None])[0]
+                    out.append((_rename(n.args[0], loop.target.id), norm(loop.iter), head))
+                elif m in ("extend", "update") and len(n.args) == 1 and not n.keywords:
+                    got = _keyed_elements(a, fi, n.args[0], cfg.node_of(n), depth + 1)
+                    if got is None:
+                        return None
+                    out += got
+                elif m in _NO_NEW:
+                    continue
+                else:
+                    return None
+            elif isinstance(n, ast.AugAssign) and isinstance(n.target, ast.Name) and n.target.id == e.id:
+                got = _keyed_elements(a, fi, n.value, cfg.node_of(n), depth + 1)
+                if got is None:
+                    return None
+                out += got
+            elif isinstance(n, ast.Assign) and any(isinstance(tg, ast.Subscript) and isinstance(tg.value, ast.Name) and tg.value.id == e.id for tg in n.targets):
+                return None
+        return out
+    return None
 
 
 def _returns_offer_or_default(a: A, bm: FuncInfo) -> bool:
@@ -577,6 +699,46 @@ def _group_alternatives(rx: RegexConst, group: int):
     return [body]
 
 
+def _group_ref(a: A, fi: FuncInfo, x: ast.AST, node, depth: int = 0):
+    """(match object expression, group number k >= 1, CFG node) when x is group k of a match: m.group(k), m[k],
+    m.groups()[k-1], a name bound to one of those or unpacked from m.groups() / m.group(i, j, ...)."""
+    if depth > 4:
+        return None
+    if isinstance(x, ast.Call) and isinstance(x.func, ast.Attribute) and x.func.attr == "group" and len(x.args) == 1 and const_int(x.args[0]):
+        return x.func.value, const_int(x.args[0]), node
+    if isinstance(x, ast.Subscript):
+        k = const_int(x.slice)
+        v = x.value
+        if k is None:
+            return None
+        if isinstance(v, ast.Call) and isinstance(v.func, ast.Attribute) and v.func.attr == "groups" and not v.args and k >= 0:
+            return v.func.value, k + 1, node
+        if isinstance(v, ast.Call) and isinstance(v.func, ast.Attribute) and v.func.attr == "group" and len(v.args) > 1 and 0 <= k < len(v.args) and const_int(v.args[k]):
+            return v.func.value, const_int(v.args[k]), node
+        if k >= 1 and a.flow.regex_of_match(fi, v, node) is not None:
+            return v, k, node
+        return None
+    if isinstance(x, ast.Name) and node is not None:
+        ds = list(a.flow.rd(fi).reaching(node, x.id))
+        if not ds:
+            return None
+        got = []
+        for d in ds:
+            if d.kind in ("assign", "walrus") and d.index is None and d.value is not None:
+                got.append(_group_ref(a, fi, d.value, d.node, depth + 1))
+            elif d.kind == "unpack" and d.index is not None and d.value is not None:
+                tg = getattr(d.stmt, "targets", [None])[0] if isinstance(d.stmt, ast.Assign) else None
+                if isinstance(tg, (ast.Tuple, ast.List)) and any(isinstance(y, ast.Starred) for y in tg.elts):
+                    return None
+                got.append(_group_ref(a, fi, ast.Subscript(value=d.value, slice=ast.Constant(d.index), ctx=ast.Load()), d.node, depth + 1))
+            else:
+                return None
+        if any(g is None for g in got) or len({(norm(g[0]), g[1]) for g in got}) != 1:
+            return None
+        return got[0]
+    return None
+
+
 def role_octal_escape(a: A, s: Site, e: str) -> Verdict:
     call = s.node
     if s.kind == "int" and e == "ValueError" and isinstance(call, ast.Call) and len(call.args) == 2 and const_int(call.args[1]) == 8:
@@ -595,19 +757,11 @@ def role_octal_escape(a: A, s: Site, e: str) -> Verdict:
     fi = s.func
     node = a.flow.node(fi, call)
     # x is group k of a match of regex R
-    grp = x
-    if isinstance(x, ast.Name):
-        ds = list(a.flow.rd(fi).reaching(node, x.id))
-        if not ds or not all(d.kind in ("assign", "walrus") and d.index is None and d.value is not None for d in ds) or len({norm(d.value) for d in ds}) != 1:
-            return None
-        grp = ds[0].value
-        gnode = ds[0].node
-    else:
-        gnode = node
-    if not (isinstance(grp, ast.Call) and isinstance(grp.func, ast.Attribute) and grp.func.attr == "group" and len(grp.args) == 1 and const_int(grp.args[0])):
+    ref = _group_ref(a, fi, x, node)
+    if ref is None:
         return None
-    k = const_int(grp.args[0])
-    rx = a.flow.regex_of_match(fi, grp.func.value, gnode)
+    mexpr, k, gnode = ref
+    rx = a.flow.regex_of_match(fi, mexpr, gnode)
     if rx is None:
         return None
     alts = _group_alternatives(rx, k)
@@ -637,10 +791,20 @@ def _ascii_bytes(a: A, fi: FuncInfo, e: ast.AST, node, st: St = St(), depth: int
         return False
     if isinstance(e, ast.Constant):
         return isinstance(e.value, bytes) and all(c < 128 for c in e.value)
+    cc = codec_call(e)
+    if cc is not None and cc[0] == "encode":
+        enc = cc[2] or ""
+        if enc in ("ascii", "us-ascii"):
+            return True
+        if enc in ("utf-8", "utf8", "latin1", "latin-1", "iso-8859-1") and node is not None:
+            # ASCII text encodes to the same ASCII bytes in every ASCII-compatible codec
+            recv = cc[1]
+            ks = a.flow.keys(fi, recv, node)
+            hit = a.flow.holds(fi, node, lambda at: at.op == "truthy" and at.truth and isinstance(at.a, ast.Call) and isinstance(at.a.func, ast.Attribute) and at.a.func.attr == "isascii" and not at.a.args and norm(at.a.func.value) in ks)
+            return hit is not None
+        return False
     if isinstance(e, ast.Call) and isinstance(e.func, ast.Attribute):
         m = e.func.attr
-        if m == "encode" and astq.const_str(astq.arg_or_kw(e, 0, "encoding") or ast.Constant("utf-8")) in ("ascii", "us-ascii"):
-            return True
         if m in ("split", "rsplit", "strip", "lstrip", "rstrip", "lower", "upper", "partition", "rpartition", "splitlines"):
             return _ascii_bytes(a, fi, e.func.value, node, st, depth + 1)
         return False
@@ -677,10 +841,11 @@ def _ascii_bytes(a: A, fi: FuncInfo, e: ast.AST, node, st: St = St(), depth: int
 def role_ascii_decode(a: A, s: Site, e: str) -> Verdict:
     if s.kind != "decode" or e != "UnicodeDecodeError" or not isinstance(s.node, ast.Call):
         return None
-    if astq.const_str(astq.arg_or_kw(s.node, 0, "encoding") or ast.Constant("utf-8")) not in ("ascii", "us-ascii"):
+    cc = codec_call(s.node)
+    if cc is None or cc[0] != "decode" or cc[2] not in ("ascii", "us-ascii"):
         return None
     node = a.flow.node(s.func, s.node)
-    if _ascii_bytes(a, s.func, s.node.func.value, node):  # type: ignore[attr-defined]
+    if _ascii_bytes(a, s.func, cc[1], node):
         return True, "the receiver is (a piece of) the result of <str>.encode('ascii') on every definition that reaches it, across the call boundary: ASCII bytes decode as ASCII"
     return None
 
@@ -689,220 +854,407 @@ def role_ascii_decode(a: A, s: Site, e: str) -> Verdict:
 # constructor validation already done by the parser
 
 
-class _Facts:
-    """must-facts along one path: structured canonical atoms, killed when a name they mention is rebound."""
+class _PairSite(t.NamedTuple):
+    """one place where an element is put into the list that reaches the validating constructor."""
 
-    def __init__(self, d=None):
-        self.d: dict[tuple[str, str, str], tuple[bool, frozenset]] = dict(d or {})
-
-    def copy(self) -> "_Facts":
-        return _Facts(self.d)
-
-    def add(self, op: str, x: ast.AST, y: ast.AST | None, truth: bool) -> None:
-        k = (op, norm(x), norm(y) if y is not None else "")
-        names = frozenset(astq.names_in(x) | (astq.names_in(y) if y is not None else set()))
-        self.d[k] = (truth, names)
-        self._close()
-
-    def _close(self) -> None:
-        # X >= Y and Y >= 0  =>  X >= 0
-        changed = True
-        while changed:
-            changed = False
-            for (op, x, y), (tr, nm) in list(self.d.items()):
-                if op == "lt" and not tr and y != "0":
-                    z = self.d.get(("lt", y, "0"))
-                    if z is not None and not z[0] and ("lt", x, "0") not in self.d:
-                        self.d[("lt", x, "0")] = (False, frozenset(astq.names_in(ast.parse(x, mode="eval").body)))
-                        changed = True
-
-    def kill(self, name: str) -> None:
-        for k in [k for k, (_, nm) in self.d.items() if name in nm]:
-            del self.d[k]
-
-    def known(self, op: str, x: ast.AST, y: ast.AST | None) -> bool | None:
-        v = self.d.get((op, norm(x), norm(y) if y is not None else ""))
-        return v[0] if v is not None else None
+    fi: FuncInfo
+    node: t.Any  # CFG node that evaluates the element
+    expr: ast.AST  # the element
+    comp: ast.AST | None  # the comprehension that produces it, if any
+    via: t.Any  # (_PairSite-like context of the call) when fi received the list as an argument: (caller fi, call, via)
 
 
-def _int_valued(a: A, fi: FuncInfo, v: ast.AST) -> bool:
-    """v evaluates to an int (never None): int constant, arithmetic on such, a call of a function annotated -> int."""
-    if const_int(v) is not None:
-        return True
-    if isinstance(v, ast.BinOp) and isinstance(v.op, (ast.Add, ast.Sub, ast.Mult)):
-        return _int_valued(a, fi, v.left) and _int_valued(a, fi, v.right)
-    if isinstance(v, ast.Call):
-        if dotted(v.func) in ("int", "len"):
-            return True
-        for g in a.flow.resolve_callee(fi, v):
-            r = getattr(g.node, "returns", None)
-            if r is not None and norm(r) == "int":
-                return True
-    return False
+_LIST_COPY = {"list", "tuple", "sorted", "reversed", "iter"}
+_NO_NEW = {"pop", "clear", "remove", "sort", "reverse", "copy", "index", "count", "__len__", "__contains__", "__iter__", "__getitem__"}
 
 
-def _paths_to(a: A, fi: FuncInfo, goal, start_nodes) -> list[_Facts]:
-    """fact sets of all acyclic paths start -> goal (exceptional edges included; a test whose atom the facts decide is
-    followed only along the decided edge)."""
-    cfg = cfg_of(fi)
-    rd = a.flow.rd(fi)
-    can = cfg.reach  # noqa
-    # nodes from which goal is reachable (prune)
-    useful = set()
-    for n in cfg.nodes:
-        if goal.id in cfg.reach(n):
-            useful.add(n.id)
-    out: list[_Facts] = []
-    stack = [(s, _Facts(), frozenset()) for s in start_nodes]
-    steps = 0
-    while stack:
-        n, facts, seen = stack.pop()
-        steps += 1
-        if steps > 20000:
-            raise AnalysisError(f"C07: too many paths in {fi.qualname}")
-        if n.id not in useful or n.id in seen:
-            continue
-        if n is goal:
-            out.append(facts)
-            continue
-        seen2 = seen | {n.id}
-        if n.kind == "test":
-            ats = satoms(n.ast, True)
-            decided = None
-            if len(ats) == 1:
-                op, x, y, tr = ats[0]
-                kv = facts.known(op, x, y)
-                if kv is not None:
-                    decided = "T" if kv == tr else "F"
-            for s_, lab in n.succs:
-                if lab in ("T", "F"):
-                    if decided is not None and lab != decided:
-                        continue
-                    f2 = facts.copy()
-                    for d in rd.gen.get(n.id, []):  # walrus in the test
-                        f2.kill(d.name)
-                    for op, x, y, tr in satoms(n.ast, lab == "T"):
-                        f2.add(op, x, y, tr)
-                    stack.append((s_, f2, seen2))
+class _ListOrigin:
+    """every element that can be in a list value: literals, comprehensions, append / insert / extend / += / item
+    assignment on the local that holds it (flow-insensitive: every addition anywhere counts), aliases, copies, helpers
+    that build and return it, helpers that fill it through a parameter, and the callers' arguments for a parameter."""
+
+    def __init__(self, a: A):
+        self.a = a
+        self.seen: set[tuple[str, str]] = set()
+
+    def err(self, fi: FuncInfo, n: ast.AST, why: str) -> AnalysisError:
+        return AnalysisError(f"C07 range constructor: {fi.qualname}: `{norm(n)[:70]}` {why}")
+
+    def value(self, fi: FuncInfo, v: ast.AST | None, node, via, depth: int = 0) -> list[_PairSite]:
+        """element sites of the list / iterable expression v."""
+        if v is None or depth > 8:
+            return []
+        if isinstance(v, ast.Constant):
+            if v.value is None or v.value == () or v.value == "":
+                return []
+            raise self.err(fi, v, "is not a list of pairs")
+        if isinstance(v, (ast.List, ast.Tuple, ast.Set)):
+            out: list[_PairSite] = []
+            for x in v.elts:
+                if isinstance(x, ast.Starred):
+                    out += self.value(fi, x.value, node, via, depth + 1)
                 else:
-                    stack.append((s_, facts.copy(), seen2))
+                    out.append(_PairSite(fi, node, x, None, via))
+            return out
+        if isinstance(v, (ast.ListComp, ast.GeneratorExp, ast.SetComp)):
+            return [_PairSite(fi, node, v.elt, v, via)]
+        if isinstance(v, ast.NamedExpr):
+            return self.value(fi, v.value, node, via, depth + 1)
+        if isinstance(v, ast.IfExp):
+            return self.value(fi, v.body, node, via, depth + 1) + self.value(fi, v.orelse, node, via, depth + 1)
+        if isinstance(v, ast.BoolOp):
+            return [x for y in v.values for x in self.value(fi, y, node, via, depth + 1)]
+        if isinstance(v, ast.BinOp) and isinstance(v.op, ast.Add):
+            return self.value(fi, v.left, node, via, depth + 1) + self.value(fi, v.right, node, via, depth + 1)
+        if isinstance(v, ast.Subscript) and isinstance(v.slice, ast.Slice):
+            return self.value(fi, v.value, node, via, depth + 1)
+        if isinstance(v, ast.Name):
+            return self.name(fi, v.id, via, depth + 1)
+        if isinstance(v, ast.Call):
+            d = dotted(v.func)
+            if d in _LIST_COPY and not v.keywords or (d == "sorted"):
+                return self.value(fi, v.args[0], node, via, depth + 1) if v.args else []
+            if d is not None and d.rsplit(".", 1)[-1] == "cast" and len(v.args) == 2:
+                return self.value(fi, v.args[1], node, via, depth + 1)
+            if isinstance(v.func, ast.Attribute) and v.func.attr == "copy" and not v.args:
+                return self.value(fi, v.func.value, node, via, depth + 1)
+            gs = self.a.flow.resolve_callee(fi, v)
+            if gs:
+                out = []
+                for g in gs:
+                    if any(isinstance(x, (ast.Yield, ast.YieldFrom)) for x in walk_no_nested(g.node)):
+                        for y in walk_no_nested(g.node):
+                            if isinstance(y, ast.Yield) and y.value is not None:
+                                out.append(_PairSite(g, cfg_of(g).node_of(y), y.value, None, None))
+                            elif isinstance(y, ast.YieldFrom):
+                                out += self.value(g, y.value, cfg_of(g).node_of(y), None, depth + 1)
+                        continue
+                    for r in astq.returns_of(g.node):
+                        out += self.value(g, r.value, cfg_of(g).node_of(r), None, depth + 1)
+                return out
+        raise self.err(fi, v, "builds the list in a shape that is not understood")
+
+    def name(self, fi: FuncInfo, name: str, via, depth: int = 0) -> list[_PairSite]:
+        """element sites of the list held by local `name` of fi (every addition anywhere in fi)."""
+        key = (fi.fq + "|" + str(id(via)), name)
+        if key in self.seen:
+            return []
+        self.seen.add(key)
+        cfg = cfg_of(fi)
+        out: list[_PairSite] = []
+        if name in fi.params:
+            out += self.param(fi, name, via, depth)
+        for n in walk_no_nested(fi.node):
+            if isinstance(n, (ast.Assign, ast.AnnAssign)):
+                tgs = n.targets if isinstance(n, ast.Assign) else [n.target]
+                val = n.value
+                for tg in tgs:
+                    if isinstance(tg, ast.Name) and tg.id == name:
+                        out += self.value(fi, val, cfg.node_of(n), via, depth + 1)
+                    elif isinstance(tg, (ast.Tuple, ast.List)) and any(isinstance(x, ast.Name) and x.id == name for x in ast.walk(tg)):
+                        raise self.err(fi, n, "binds the list by unpacking")
+                    elif isinstance(tg, ast.Subscript) and isinstance(tg.value, ast.Name) and tg.value.id == name:
+                        if isinstance(tg.slice, ast.Slice):
+                            out += self.value(fi, val, cfg.node_of(n), via, depth + 1)
+                        else:
+                            out.append(_PairSite(fi, cfg.node_of(n), val, None, via))
+                    elif isinstance(tg, ast.Name) and isinstance(val, ast.Name) and val.id == name:
+                        out += self.name(fi, tg.id, via, depth + 1)  # alias: additions through the other name count
+            elif isinstance(n, ast.AugAssign) and isinstance(n.target, ast.Name) and n.target.id == name:
+                if not isinstance(n.op, ast.Add):
+                    raise self.err(fi, n, "changes the list in a shape that is not understood")
+                out += self.value(fi, n.value, cfg.node_of(n), via, depth + 1)
+            elif isinstance(n, ast.NamedExpr) and n.target.id == name:
+                out += self.value(fi, n.value, cfg.node_of(n), via, depth + 1)
+            elif isinstance(n, (ast.For, ast.AsyncFor)) and any(isinstance(x, ast.Name) and x.id == name for x in ast.walk(n.target)):
+                raise self.err(fi, n.target, "rebinds the list as a loop variable")
+            elif isinstance(n, ast.Call):
+                f = n.func
+                if isinstance(f, ast.Attribute) and isinstance(f.value, ast.Name) and f.value.id == name:
+                    nn = cfg.node_of(n)
+                    if f.attr in ("append", "add") and len(n.args) == 1 and not n.keywords:
+                        out.append(_PairSite(fi, nn, n.args[0], None, via))
+                    elif f.attr == "insert" and len(n.args) == 2 and not n.keywords:
+                        out.append(_PairSite(fi, nn, n.args[1], None, via))
+                    elif f.attr in ("extend", "update", "__iadd__") and len(n.args) == 1 and not n.keywords:
+                        out += self.value(fi, n.args[0], nn, via, depth + 1)
+                    elif f.attr == "__setitem__" and len(n.args) == 2:
+                        out.append(_PairSite(fi, nn, n.args[1], None, via))
+                    elif f.attr in _NO_NEW:
+                        pass
+                    else:
+                        raise self.err(fi, n, "changes the list in a shape that is not understood")
+                    continue
+                # the list handed to a package helper that fills it through its parameter
+                hit = [("pos", i) for i, x in enumerate(n.args) if isinstance(x, ast.Name) and x.id == name] + [("kw", k.arg) for k in n.keywords if isinstance(k.value, ast.Name) and k.value.id == name]
+                if not hit:
+                    continue
+                for g in self.a.flow.resolve_callee(fi, n):
+                    for p in g.params:
+                        b = self.a.flow.bind(g, n, p)
+                        if b is not None and b[0] == "arg" and isinstance(b[1], ast.Name) and b[1].id == name:
+                            sub = _ListOrigin(self.a)
+                            sub.seen = self.seen
+                            out += sub.name(g, p, (fi, n, via), depth + 1)
+        return out
+
+    def param(self, fi: FuncInfo, pname: str, via, depth: int) -> list[_PairSite]:
+        """the list is a parameter: what the callers pass (unless fi was entered through a known call: `via`)."""
+        if via is not None:
+            return []  # the caller's own additions are collected in the caller
+        if fi.fq in self.a.flow.entry_fqs:
+            raise AnalysisError(f"C07 range constructor: the list is parameter `{pname}` of the entry point {fi.qualname}")
+        cal = self.a.flow.callers(fi)
+        if not cal:
+            raise AnalysisError(f"C07 range constructor: no caller found for {fi.qualname} whose parameter `{pname}` holds the list")
+        out: list[_PairSite] = []
+        for f, n, kind in cal:
+            b = self.a.flow.bind(fi, n, pname) if kind == "call" else None
+            if b is None:
+                raise AnalysisError(f"C07 range constructor: cannot bind `{pname}` of {fi.qualname} at `{norm(n)[:60]}`")
+            if b[0] == "default":
+                out += self.value(fi, b[1], cfg_of(fi).entry, None, depth + 1)
+            else:
+                out += self.value(f, b[1], cfg_of(f).node_of(n), None, depth + 1)
+        return out
+
+
+class _Ctor:
+    """the validating constructor: a raise (in the constructor or in a helper it calls) inside a `for` loop over one of
+    the constructor's parameters.  replay(pair) decides whether that raise can be reached for an element about which
+    only the given facts are known."""
+
+    def __init__(self, a: A, sim: PathSim, init: FuncInfo, anchors: list[ast.AST], raiser: FuncInfo, raise_stmt: ast.AST):
+        self.a, self.sim, self.init, self.anchors, self.raiser, self.raise_stmt = a, sim, init, anchors, raiser, raise_stmt
+        self.loops: list[tuple[ast.For, str, ast.AST]] = []  # (loop, list parameter, element target)
+        for an in anchors:
+            cur = astq.enclosing(an, (ast.For,))
+            found = None
+            while isinstance(cur, ast.For):
+                got = self._iter_param(cur)
+                if got is not None:
+                    found = (cur, got[0], got[1])
+                    break
+                cur = astq.enclosing(cur, (ast.For,))
+            if found is None:
+                raise _NotThisRole()
+            self.loops.append(found)
+        if len({p for _, p, _ in self.loops}) != 1:
+            raise AnalysisError(f"C07 range constructor: the validation loops of {init.qualname} iterate different parameters")
+        self.param = self.loops[0][1]
+
+    def _iter_param(self, loop: ast.For) -> tuple[str, ast.AST] | None:
+        """(parameter the loop iterates, the part of the loop target that is one element)."""
+        it, tg = loop.iter, loop.target
+        while isinstance(it, ast.Call) and dotted(it.func) in ("enumerate", "iter", "list", "tuple", "reversed", "sorted") and it.args:
+            if dotted(it.func) == "enumerate":
+                if not (isinstance(tg, ast.Tuple) and len(tg.elts) == 2):
+                    return None
+                tg = tg.elts[1]
+            it = it.args[0]
+        init = self.init
+        if isinstance(it, ast.Name) and it.id in init.params and not astq.assigns_to(init.node, it.id):
+            return it.id, tg
+        if isinstance(it, ast.Name):
+            vals = [v for _, v in astq.assigns_to(init.node, it.id)]
+            if vals and all(isinstance(v, ast.Name) and v.id in init.params and not astq.assigns_to(init.node, v.id) for v in vals) and len({v.id for v in vals}) == 1:  # type: ignore[union-attr]
+                return vals[0].id, tg  # type: ignore[union-attr]
+        if init.params and astq.is_self_attr(it, None, init.params[0]):
+            srcs = [x.value for x in walk_no_nested(init.node) if isinstance(x, (ast.Assign, ast.AnnAssign)) and getattr(x, "value", None) is not None and any(astq.is_self_attr(tg2, it.attr, init.params[0]) for tg2 in (x.targets if isinstance(x, ast.Assign) else [x.target]))]  # type: ignore[attr-defined]
+            if srcs and all(isinstance(v, ast.Name) and v.id in init.params and not astq.assigns_to(init.node, v.id) for v in srcs) and len({v.id for v in srcs}) == 1:  # type: ignore[union-attr]
+                return srcs[0].id, tg  # type: ignore[union-attr]
+        return None
+
+    def _element_state(self, pair: PS, tg: ast.AST) -> PS:
+        """the loop's initial facts: the element target bound to the pair."""
+        if isinstance(tg, ast.Name):
+            mp = {"$p": tg.id}
+        elif isinstance(tg, (ast.Tuple, ast.List)) and all(isinstance(x, ast.Name) for x in tg.elts) and len(tg.elts) == len(pair.tup.get("$p", ())):
+            mp = {f"$p#{i}": x.id for i, x in enumerate(tg.elts)}  # type: ignore[attr-defined]
+        else:
+            raise AnalysisError(f"C07 range constructor: the loop target `{norm(tg)}` of {self.init.qualname} is not understood")
+
+        def ren(v: str) -> str | None:
+            if v in mp:
+                return mp[v]
+            root, sep, rest = v.partition("#")
+            if root in mp:
+                return mp[root] + sep + rest
+            # components of components
+            for k, nv in mp.items():
+                if v.startswith(k + "#"):
+                    return nv + v[len(k):]
+            return None
+
+        st = PS()
+        st.merge(pair.renamed(ren))
+        return st
+
+    def reaches(self, pair: PS) -> bool:
+        """can the raise be reached for an element with these facts?"""
+        icfg = cfg_of(self.init)
+        for an, (loop, _, tg) in zip(self.anchors, self.loops):
+            head = icfg.by_ast.get(id(loop), [None])[0]
+            goal = icfg.node_of(an)
+            if head is None or goal is None:
+                raise AnalysisError(f"C07 range constructor: no CFG for the validation loop of {self.init.qualname}")
+            hit = []
+
+            def on_goal(n, st: PS, an=an) -> None:
+                if self.raiser is self.init:
+                    hit.append(st)
+                    return
+                # the raise sits in a helper called here: enter it with the arguments' facts
+                for c in [x for x in [an, *ast.walk(an)] if isinstance(x, ast.Call)]:
+                    if self.raiser in self.a.flow.resolve_callee(self.init, c):
+                        for hst in _enter(self.a, self.sim, self.init, st.copy(), c, self.raiser):
+                            inner = []
+                            self.sim.walk(self.raiser, [cfg_of(self.raiser).node_of(self.raise_stmt)], lambda n2, s2: inner.append(s2), init=hst)
+                            if inner:
+                                hit.append(st)
+                                return
+
+            self.sim.walk(self.init, [goal], on_goal, init=self._element_state(pair, tg), starts=icfg.succ(head, "T"), block=[head])
+            if hit:
+                return True
+        return False
+
+
+class _NotThisRole(Exception):
+    pass
+
+
+def _enter(a: A, sim: PathSim, fi: FuncInfo, st: PS, call: ast.Call, g: FuncInfo) -> list[PS]:
+    """the entry states of helper g when called at `call` in state st of fi: its parameters carry the arguments' facts."""
+    states = [st]
+    amap: dict[str, str] = {}
+    ar = g.node.args  # type: ignore[attr-defined]
+    pnames = [x.arg for x in ar.posonlyargs + ar.args + ar.kwonlyargs]
+    static = any(d.rsplit(".", 1)[-1] == "staticmethod" for d in g.decorators)
+    if g.cls is not None and not static and pnames:
+        pnames = pnames[1:]
+    for p in pnames:
+        b = a.flow.bind(g, call, p)
+        if b is None:
             continue
-        for s_, lab in n.succs:
-            f2 = facts.copy()
-            if lab != "exc":
-                for d in rd.gen.get(n.id, []):
-                    f2.kill(d.name)
-                for d in rd.gen.get(n.id, []):
-                    if d.kind in ("assign", "walrus") and d.index is None and d.value is not None and isinstance(d.target, ast.Name):
-                        if astq.is_none(d.value):
-                            f2.add("is", d.target, ast.Constant(None), True)
-                        elif _int_valued(a, fi, d.value):
-                            f2.add("is", d.target, ast.Constant(None), False)
-                            c = const_int(d.value)
-                            if c is not None:
-                                f2.add("lt", d.target, ast.Constant(0), c < 0)
-            stack.append((s_, f2, seen2))
+        t1 = sim.tmp("e")
+        amap[t1] = p
+        nxt: list[PS] = []
+        for s in states:
+            nxt += sim.eval(fi, s, b[1], t1)
+        states = nxt
+
+    def ren(v: str) -> str | None:
+        root, sep, rest = v.partition("#")
+        return amap[root] + sep + rest if root in amap else None
+
+    out = []
+    base = sim.entry_state(g)
+    # textual atoms of the caller about plain names it passes: the same atoms hold about the parameters
+    inv: dict[str, ast.AST] = {}
+    for p in pnames:
+        b = a.flow.bind(g, call, p)
+        if b is not None and b[0] == "arg" and isinstance(b[1], ast.Name) and b[1].id not in inv:
+            inv[b[1].id] = ast.Name(p, ast.Load())
+    for s in states:
+        e0 = base.copy()
+        if not e0.merge(s.project(list(amap)).renamed(ren)):
+            continue
+        for key, (truth, names) in s.gen.items():
+            if names and names <= set(inv):
+                got = _subst_key(key, {k: inv[k] for k in names})
+                if got is not None:
+                    e0.gen[got[0]] = (truth == got[1], frozenset(got[2]))
+        out.append(e0)
     return out
 
 
-def role_range_constructor(a: A, s: Site, e: str) -> Verdict:
-    """raise in the __init__ of the class parse_range_header instantiates: the parser's own checks exclude it."""
-    if s.kind != "raise" or e != "ValueError" or s.func.cls is None or s.func.name != "__init__":
-        return None
-    prh = a.repo.try_func("http.parse_range_header")
-    if prh is None:
-        return None
-    cons = []
-    for r in astq.returns_of(prh.node):
-        if isinstance(r.value, ast.Call):
-            li = prh.module.local_imports(prh.node)
-            try:
-                tg = a.eff._resolve_call(prh, r.value, li, None)
-            except Exception:
-                tg = []
-            if any(g is s.func for g in tg):
-                cons.append(r.value)
-    if not cons:
-        return None
-    init = s.func
-    loop = astq.enclosing(s.node, (ast.For,))
-    if not (isinstance(loop, ast.For) and isinstance(loop.target, ast.Tuple) and len(loop.target.elts) == 2 and all(isinstance(x, ast.Name) for x in loop.target.elts) and isinstance(loop.iter, ast.Name) and loop.iter.id in init.params):
-        raise AnalysisError(f"C07 range constructor: the validation in {init.qualname} is not a `for a, b in <parameter>` loop")
-    n0, n1 = (x.id for x in loop.target.elts)
-    icfg = cfg_of(init)
-    lhead = icfg.by_ast.get(id(loop), [None])[0]
-    body0 = icfg.succ(lhead, "T") if lhead is not None else []
-    raise_node = icfg.node_of(s.node)
-    if not body0 or raise_node is None:
-        raise AnalysisError(f"C07 range constructor: no CFG for the validation loop of {init.qualname}")
-    pcfg = cfg_of(prh)
-    facts_txt = []
-    npaths = 0
-    for c in cons:
-        b = a.flow.bind(init, c, loop.iter.id)
-        if b is None or b[0] != "arg" or not isinstance(b[1], ast.Name):
-            raise AnalysisError("C07 range constructor: the list handed to the constructor is not a local name")
-        lname = b[1].id
-        producers = []
-        for n in walk_no_nested(prh.node):
-            if isinstance(n, ast.Call) and isinstance(n.func, ast.Attribute) and isinstance(n.func.value, ast.Name) and n.func.value.id == lname:
-                if n.func.attr == "append" and len(n.args) == 1 and isinstance(n.args[0], ast.Tuple) and len(n.args[0].elts) == 2 and all(isinstance(x, ast.Name) for x in n.args[0].elts):
-                    producers.append(n)
-                elif n.func.attr in ("append", "extend", "insert", "__setitem__", "__iadd__"):
-                    raise AnalysisError(f"C07 range constructor: `{norm(n)}` adds to the list in a shape that is not understood")
-        lst_defs = [v for _, v in astq.assigns_to(prh.node, lname)]
-        if not producers or not lst_defs or not all(isinstance(v, ast.List) and not v.elts for v in lst_defs):
-            raise AnalysisError(f"C07 range constructor: `{lname}` is not an empty list filled by .append((a, b))")
-        for p in producers:
-            goal = pcfg.node_of(p)
-            lp = astq.enclosing(p, (ast.For, ast.While))
-            if isinstance(lp, ast.For):
-                h = pcfg.by_ast.get(id(lp), [None])[0]
-                starts = pcfg.succ(h, "T")
-            elif lp is None:
-                starts = [s_ for s_, _ in pcfg.entry.succs]
-            else:
-                raise AnalysisError("C07 range constructor: the append sits in a while loop")
-            bn, en = (x.id for x in p.args[0].elts)
-            for facts in _paths_to(a, prh, goal, starts):
-                npaths += 1
-                valmap: dict[str, bool] = {}
-                for (op, x, y), (tr, _) in facts.d.items():
-                    xe = _rename2(x, {bn: n0, en: n1})
-                    ye = _rename2(y, {bn: n0, en: n1}) if y else None
-                    if xe is None or (y and ye is None):
-                        continue
-                    txt = {"is": f"({xe}) is ({ye})", "eq": f"({xe}) == ({ye})", "lt": f"({xe}) < ({ye})", "in": f"({xe}) in ({ye})", "truthy": f"({xe})"}[op]
-                    k, pol = canon(ast.parse(txt, mode="eval").body)
-                    valmap[k] = tr == pol
-                outs = []
-                for st0 in body0:
-                    outs.extend(simulate(icfg, lambda k, v=valmap: v.get(k), start=st0))
-                hit = [o for o in outs if o.kind == "raise" and o.node is raise_node]
-                if hit:
-                    known = sorted(f"{k}:{'T' if v else 'F'}" for k, v in valmap.items() if n0 in k or n1 in k)
-                    return False, f"a path of {prh.qualname} reaches `{norm(p)}` knowing only {known}, which does not exclude the constructor's raise"
-    return True, f"on each of the {npaths} path(s) of {prh.qualname} to an append, the facts established about the pair (tests passed after the last rebinding of its names) exclude this raise when the constructor's validation is replayed under them"
+def _states_at(a: A, sim: PathSim, fi: FuncInfo, node, via) -> list[PS]:
+    """the fact sets of all paths that reach `node` of fi (entered from the function's entry, or - for a helper that was
+    handed the list - from each state of the calling site)."""
+    out: list[PS] = []
+    if via is None:
+        sim.walk(fi, [node], lambda n, st: out.append(st))
+        return out
+    cf, call, cvia = via
+    for cst in _states_at(a, sim, cf, cfg_of(cf).node_of(call), cvia):
+        for e0 in _enter(a, sim, cf, cst, call, fi):
+            sim.walk(fi, [node], lambda n, st: out.append(st), init=e0)
+    return out
 
 
-def _rename2(txt: str, mp: dict[str, str]) -> str | None:
-    """rename the parser's pair names to the constructor's loop targets; any other name that collides is set aside."""
+def _find_ctor(a: A, sim: PathSim, s: Site) -> _Ctor | None:
+    g = s.func
+    if g.name == "__init__" and g.cls is not None:
+        try:
+            return _Ctor(a, sim, g, [s.node], g, s.node)
+        except _NotThisRole:
+            return None
+    cal = a.flow.callers(g)
+    inits = {f.fq: f for f, n, kind in cal if kind == "call" and f.name == "__init__" and f.cls is not None}
+    if len(inits) != 1 or any(f.fq not in inits or kind != "call" for f, n, kind in cal):
+        return None
+    init = next(iter(inits.values()))
     try:
-        e = ast.parse(txt, mode="eval").body
-    except SyntaxError:
+        return _Ctor(a, sim, init, [n for f, n, kind in cal], g, s.node)
+    except _NotThisRole:
         return None
 
-    class T(ast.NodeTransformer):
-        def visit_Name(self, n):  # noqa: N802
-            if n.id in mp:
-                new = mp[n.id]
-            elif n.id in mp.values():
-                new = "_other_" + n.id
-            else:
-                new = n.id
-            return ast.copy_location(ast.Name(new, n.ctx), n)
 
-    return ast.unparse(T().visit(e))
+def role_range_constructor(a: A, s: Site, e: str) -> Verdict:
+    """a raise that validates, element by element, a list handed to a constructor (Range.__init__): excluded when every
+    element that can be in the list at each construction satisfies what the validation demands."""
+    if s.kind != "raise" or e != "ValueError":
+        return None
+    sim = a.sim
+    sim.steps = 0
+    ctor = _find_ctor(a, sim, s)
+    if ctor is None:
+        return None
+    init = ctor.init
+    cal = a.flow.callers(init)
+    if not cal:
+        return None
+    sites: list[_PairSite] = []
+    org = _ListOrigin(a)
+    for f, n, kind in cal:
+        b = a.flow.bind(init, n, ctor.param) if kind == "call" else None
+        if b is None:
+            raise AnalysisError(f"C07 range constructor: cannot tell which list `{norm(n)[:60]}` in {f.qualname} hands to {init.qualname}")
+        where = cfg_of(f).node_of(n) if b[0] == "arg" else cfg_of(init).entry
+        sites += org.value(f if b[0] == "arg" else init, b[1], where, None)
+    uniq: dict[tuple, _PairSite] = {}
+    for ps in sites:
+        uniq.setdefault((ps.fi.fq, id(ps.expr), id(ps.via[1]) if ps.via else 0), ps)
+    nstates = 0
+    for ps in uniq.values():
+        if ps.node is None:
+            raise AnalysisError(f"C07 range constructor: no CFG node for `{norm(ps.expr)[:60]}` in {ps.fi.qualname}")
+        for st in _states_at(a, sim, ps.fi, ps.node, ps.via):
+            states = [st]
+            if ps.comp is not None:
+                for gen in ps.comp.generators:  # type: ignore[attr-defined]
+                    for x in ast.walk(gen.target):
+                        if isinstance(x, ast.Name):
+                            for s_ in states:
+                                s_.unknown(x.id, opaque=True)
+                    for cond in gen.ifs:
+                        states = [s2 for s_ in states for s2 in sim.assume(ps.fi, s_, cond, True)]
+            for st1 in states:
+                for st2 in sim.eval(ps.fi, st1, ps.expr, "$p"):
+                    nstates += 1
+                    comps = st2.tup.get("$p")
+                    txt = f"`{norm(ps.expr)[:60]}` in {ps.fi.qualname}"
+                    if st2.null.get("$p") is True:
+                        return False, f"{txt} can put None into the list handed to {init.qualname}"
+                    if comps is None:
+                        raise AnalysisError(f"C07 range constructor: the element {txt} is not a tuple that is understood")
+                    pair = st2.project(["$p"])
+                    if ctor.reaches(pair):
+                        if any(c in st2.opq for c in st2.closure_of(["$p"])):
+                            raise AnalysisError(f"C07 range constructor: the element {txt} has a component whose origin is not modelled ({pair.describe(comps)})")
+                        return False, f"a path of {ps.fi.qualname} reaches {txt} knowing only [{pair.describe(comps)}], which does not exclude the constructor's raise"
+    return True, f"{len(uniq)} place(s) put an element into the list handed to {init.qualname} ({', '.join(sorted({norm(p.expr)[:40] for p in uniq.values()}))}); on each of the {nstates} path state(s) reaching them the facts about the element (nullness, int, difference bounds after the last rebinding) make the constructor's raise unreachable when its validation is replayed"
 
 
 def role_validated_constructor(a: A, s: Site, e: str) -> Verdict:
@@ -938,7 +1290,12 @@ def role_validated_constructor(a: A, s: Site, e: str) -> Verdict:
             tops += 1
             nn = cfg_of(f).node_of(n)
             want = [norm(x) for x in args]
-            hit = a.flow.holds(f, nn, lambda at: at.op == "truthy" and at.truth and isinstance(at.a, ast.Call) and (dotted(at.a.func) or "").rsplit(".", 1)[-1] == pred and [norm(x) for x in at.a.args] == want and not at.a.keywords)
+            save_sa = a.flow.site_ast
+            a.flow.site_ast = n  # the conditional expressions the construction sits in count as guards
+            try:
+                hit = a.flow.holds(f, nn, lambda at: at.op == "truthy" and at.truth and isinstance(at.a, ast.Call) and (dotted(at.a.func) or "").rsplit(".", 1)[-1] == pred and [norm(x) for x in at.a.args] == want and not at.a.keywords)
+            finally:
+                a.flow.site_ast = save_sa
             facts.append(f"{f.qualname}: `{norm(n)[:60]}` under {pred}({', '.join(want)}): {hit is not None}")
             ok = ok and hit is not None
     if not tops:
@@ -973,28 +1330,65 @@ def review(a: A, s: Site, e: str) -> tuple[str, bool, str] | None:
 # form parser silent mode (not a site role: it makes a re-raise dead)
 
 
+def _means_falsy(test: ast.AST, label: str, attr_txt: str) -> bool:
+    """the (test, edge) says that <attr> is false: `not self.silent`, `self.silent is False`, `self.silent == False`,
+    `self.silent is not True` ... in any polarity."""
+    k, pol = canon(test)
+    val = (label == "T") == pol
+    if k == attr_txt:
+        return not val
+    for const, means_false_when in (("False", True), ("True", False)):
+        if k in (f"{attr_txt} is {const}", f"{const} is {attr_txt}", " == ".join(sorted([attr_txt, const]))):
+            return val == means_false_when
+    return False
+
+
 def p_form_parser_silent(ctx, folder):
+    """(ok, dead re-raise statements, why): every bare `raise` in the ValueError handler of FormDataParser.parse runs only
+    when self.silent is false, and silent is True on the request path."""
+    from ..dataflow import ReachingDefs
+    from ..guards import Aliases
+
     f = ctx.repo.func("formparser.FormDataParser.parse")
-    tr = [n for n in ast.walk(f.node) if isinstance(n, ast.Try)]
-    ok_h = False
-    guard_txt = None
+    cfg = cfg_of(f)
+    al = Aliases(cfg, ReachingDefs(cfg, f.params))
     sn = f.params[0]
-    for t_ in tr:
+    attr_txt = f"{sn}.silent"
+    dead: list[ast.AST] = []
+    ok_h = False
+    nh = 0
+    for t_ in [n for n in walk_no_nested(f.node) if isinstance(n, ast.Try)]:
         for h in t_.handlers:
-            if (dotted(h.type) or "") == "ValueError":
-                rer = [x for x in ast.walk(h) if isinstance(x, ast.Raise)]
-                good = bool(rer)
-                for x in rer:
-                    p = astq.parent(x)
-                    if not (x.exc is None and isinstance(p, ast.If) and any(x is y for y in p.body)):
-                        good = False
+            types = [dotted(x) or "" for x in (h.type.elts if isinstance(h.type, ast.Tuple) else [h.type])] if h.type is not None else ["BaseException"]
+            if not any(tn.rsplit(".", 1)[-1] in ("ValueError", "Exception", "BaseException") for tn in types):
+                continue
+            nh += 1
+            inner = {id(x) for st_ in h.body for x in [st_, *ast.walk(st_)]}
+            rer = [x for st_ in h.body for x in [st_, *walk_no_nested(st_)] if isinstance(x, ast.Raise)]
+            good = True
+            for x in rer:
+                if x.exc is not None:
+                    good = False  # raises something explicitly: an ordinary raising site, not a re-raise
+                    continue
+                node = cfg.node_of(x)
+                under = False
+                for tn, label in (cfg.guards(node) if node is not None else []):
+                    if tn.kind != "test" or id(tn.ast) not in inner:
                         continue
-                    k, pol = canon(p.test)
-                    if (k, pol) != (f"{sn}.silent", False):
-                        good = False
-                    else:
-                        guard_txt = norm(p.test)
-                ok_h = good
+                    forms = [tn.ast]
+                    try:
+                        forms.append(al.expand(tn.ast, tn))
+                    except Exception:
+                        pass
+                    if any(_means_falsy(e, label, attr_txt) for e in forms):
+                        under = True
+                if under:
+                    dead.append(x)
+                else:
+                    good = False
+            ok_h = good
+    if nh != 1:
+        ok_h = False
     init = ctx.repo.func("formparser.FormDataParser.__init__")
     a = init.node.args
     names = [x.arg for x in a.args]
@@ -1002,9 +1396,12 @@ def p_form_parser_silent(ctx, folder):
     if "silent" in names:
         i = names.index("silent") - (len(names) - len(a.defaults))
         dflt = norm(a.defaults[i]) if i >= 0 else None
-    stored = any(isinstance(s_, ast.Assign) and any(astq.is_self_attr(tg, "silent", init.params[0]) for tg in s_.targets) and isinstance(s_.value, ast.Name) and s_.value.id == "silent" for s_ in ast.walk(init.node))
+    kwo = [x.arg for x in a.kwonlyargs]
+    if "silent" in kwo and a.kw_defaults[kwo.index("silent")] is not None:
+        dflt = norm(a.kw_defaults[kwo.index("silent")])
+    stored = any(isinstance(s_, (ast.Assign, ast.AnnAssign)) and getattr(s_, "value", None) is not None and any(astq.is_self_attr(tg, "silent", init.params[0]) for tg in (s_.targets if isinstance(s_, ast.Assign) else [s_.target])) and isinstance(s_.value, ast.Name) and s_.value.id == "silent" for s_ in ast.walk(init.node))
     mk = ctx.repo.func("wrappers.request.Request.make_form_data_parser")
     passes = any(kw.arg == "silent" or kw.arg is None for c in astq.calls(mk.node) for kw in c.keywords)
-    writes = [fn.fq for fn in ctx.repo.all_functions() if fn.fq != init.fq and any(isinstance(s_, (ast.Assign, ast.AugAssign)) and any(isinstance(t2, ast.Attribute) and t2.attr == "silent" for t2 in (s_.targets if isinstance(s_, ast.Assign) else [s_.target])) for s_ in ast.walk(fn.node))]
+    writes = [fn.fq for fn in ctx.repo.all_functions() if fn.fq != init.fq and any(isinstance(s_, (ast.Assign, ast.AugAssign, ast.AnnAssign)) and any(isinstance(t2, ast.Attribute) and t2.attr == "silent" for t2 in (s_.targets if isinstance(s_, ast.Assign) else [s_.target])) for s_ in ast.walk(fn.node))]
     ok = ok_h and dflt == "True" and stored and not passes and not writes
-    return ok, guard_txt, f"handler re-raises only when self.silent is false: {ok_h}; default silent={dflt}; stored: {stored}; Request.make_form_data_parser passes silent: {passes}; other writers of .silent: {writes}"
+    return ok, (dead if ok else []), f"handler re-raises only when self.silent is false: {ok_h}; default silent={dflt}; stored: {stored}; Request.make_form_data_parser passes silent: {passes}; other writers of .silent: {writes}"
